@@ -12,6 +12,9 @@ import re
 IDS = ['p', 'q', 'r', 'zz', 'k9']
 NUMS = ['1', '22', '0x3', '4u', '5.5']
 PUNCT = ['+', '-', '*', '/', '<', '>', '=', ';', '&&', '|', '!', '?', ':', '<<', '->', '.', '++', '==']
+PUNCT_PASTES = [('<', '<'), ('>', '>'), ('-', '>'), ('+', '+'), ('-', '-'), ('<', '='), ('>', '='), ('=', '='), ('!', '='),
+                ('&', '&'), ('|', '|'), ('<<', '='), ('>>', '='), ('+', '='), ('*', '='), ('.', '5'), ('1', '.5'), ('0x', '3'),
+                ('p', '1'), ('1e', '3')]
 STRS = ['"s"', '"a b"', '"x\\n"', '"q\\"r"', "'c'", "'\\\\'", '"\\\\"']
 
 
@@ -97,6 +100,11 @@ class MacroGen:
                     self.feats.add('paste')
                     if len(body) >= 5 and body[-4][0] == 'paste':
                         self.feats.add('paste-chain')
+                    j += 1
+                elif k < 0.745 and j < m - 1:
+                    a, b = r.choice(PUNCT_PASTES)
+                    body += [('tok', a), ('paste', '##'), ('tok', b)]
+                    self.feats.add('paste-punctuators')
                     j += 1
                 elif k < 0.80:
                     body += [('tok', '('), ('tok', self.plain_tok() if r.random() < 0.5 else r.choice(names)), ('tok', ')')]
@@ -230,6 +238,11 @@ class MacroGen:
         sp = r.choice(['', '', ' ', '\n'])
         if sp == '\n':
             self.feats.add('call-across-lines')
+        if not args:
+            inner = r.choice(['', '', ' ', '\n', ' \n ', '/* c */'])
+            if '\n' in inner:
+                self.feats.add('newline-in-empty-call')
+            return '%s%s(%s)' % (m['name'], sp, inner)
         return '%s%s(%s)' % (m['name'], sp, r.choice([', ', ',', ' , ']).join(args))
 
     def use_text(self, nlines):
@@ -249,7 +262,25 @@ class MacroGen:
 def gen_macro_case(rng, idx):
     g = MacroGen(rng, 'c%d_' % idx)
     g.gen_macros(rng.randint(1, 5))
-    text = '\n'.join(g.define_text(m) for m in g.macros) + '\n' + g.use_text(rng.randint(1, 3)) + '\n'
+    extra_defs, extra_use = [], []
+    cands = [m for m in g.macros if m['params'] and not m['paste_params']]
+    if cands and rng.random() < 0.3:
+        # C11 6.10.3.5 EXAMPLE 3 (`#define h g(~`, `h 5)`): the call is opened inside a replacement list, possibly
+        # nested through aliases, and closed by the text after it
+        f = rng.choice(cands)
+        depth = rng.choice([0, 1, 1, 2, 3])
+        px = g.px + 'Op'
+        first = g.plain_tok() if rng.random() < 0.7 else ''
+        extra_defs.append('#define %s0 %s%s(%s' % (px, f['name'], rng.choice(['', ' ']), first))
+        for k in range(depth):
+            extra_defs.append('#define %s%d %s%d%s' % (px, k + 1, px, k, rng.choice(['', ' ' + rng.choice(IDS)]) if k == 0 and False else ''))
+        rest = [g.arg(1, False)] + [g.arg(1, False) for _ in f['params'][1:]]
+        if f['variadic']:
+            rest.append(g.arg(1, False))
+        extra_use.append('%s%d %s ) ;' % (px, depth, ' , '.join(rest)))
+        g.feats.add('call-opened-in-replacement-depth-%d' % depth)
+    text = '\n'.join([g.define_text(m) for m in g.macros] + extra_defs) + '\n' + \
+           '\n'.join([g.use_text(rng.randint(1, 3))] + extra_use) + '\n'
     return text, sorted(g.feats)
 
 
@@ -460,7 +491,7 @@ def squash(tokens):
 
 # ------------------------------------------------------------------ encoding for the PpExpandFn model
 # c2mir's token stream of a text: pp-tokens plus one ' ' or '\n' token per run of white space.
-_LEX = re.compile(r'(?P<ws>\s+)|' + _TOK.pattern, re.X)
+_LEX = re.compile(r'(?P<ws>(?:\s|/\*[^\n]*?\*/)+)|' + _TOK.pattern, re.X)   # a comment is white space
 
 
 def lex_c2m(text):
